@@ -21,6 +21,7 @@
 import GoBT.Props.C02
 import GoBT.Props.C03
 import GoBT.Interp.P2PKH
+import GoBT.Interp.P2PKHInsc
 namespace GoBT.C04
 open GoBT GoBT.Sighash
 
@@ -257,6 +258,49 @@ example :
     checkHashTypeEncoding (mkEnv toyH 0 (some toyCtx)) 1 = none ∧
     (execute toyH 0 (some toyCtx) (unlockBytes [0x30, 0x01] [0x02, 0x09]) (lockBytes (List.replicate 20 7))).1 = .accept := by
   refine ⟨by decide +kernel, by decide +kernel, by decide +kernel⟩
+
+/-- **A FORKID signature made for a P2PKH-inscription input is accepted** — the "(or P2PKH-inscription)" of the property.
+    `lock` is any byte string the interpreter's parser reads as the P2PKH template followed by `OP_0 OP_IF <mid> OP_ENDIF`
+    with `mid` a list of opcodes that are merely stepped over in the false branch (Tx.Inscribe's pushes of "ord", the
+    content type and the data, of every length within the era's element size). -/
+theorem p2pkh_inscription_signature_accepted (H : Crypto) (flags : Nat) (c : Ctx) (fullSig pk h lock digest : Bytes)
+    (mid : List Script.POp)
+    (hflags : hasFlag (mkEnv H flags (some c)).flags fCleanStack = true → hasFlag (mkEnv H flags (some c)).flags fBip16 = true)
+    (hfork : hasFlag (mkEnv H flags (some c)).flags Interp.fForkID = true)
+    (hbit : (fullSig.getLast?.getD 0).toNat &&& 0x40 = 0x40)
+    (hs : 2 ≤ fullSig.length ∧ fullSig.length ≤ 75) (hp : 2 ≤ pk.length ∧ pk.length ≤ 75) (hh : h.length = 20)
+    (hparse : Script.parseScript lock false = .ok (lockOps h ++ envelope mid))
+    (hsize : lock.length ≤ (mkEnv H flags (some c)).cfg.maxScriptSize) (hnp : Script.isP2SH lock = false)
+    (hmid : ∀ o ∈ mid, Skippable (mkEnv H flags (some c)) o) (hops : 6 + mid.length ≤ (mkEnv H flags (some c)).cfg.maxOps)
+    (hkey : H.ripemd160 (H.sha256 pk) = h)
+    (hht : checkHashTypeEncoding (mkEnv H flags (some c)) (fullSig.getLast?.getD 0).toNat = none)
+    (hse : checkSignatureEncoding (mkEnv H flags (some c)) fullSig.dropLast = none)
+    (hpe : checkPubKeyEncoding (mkEnv H flags (some c)) pk = none)
+    (hdig : sigDigest (mkEnv H flags (some c)) c lock (fullSig.getLast?.getD 0).toNat = some digest)
+    (hpk : H.pubKeyOk pk = true)
+    (hver : H.verify (hasFlag (mkEnv H flags (some c)).flags fStrictEnc || hasFlag (mkEnv H flags (some c)).flags fDERSig)
+              fullSig.dropLast digest pk = some true) :
+    (execute H flags (some c) (unlockBytes fullSig pk) lock).1 = .accept :=
+  inscription_spend_accepted H flags c fullSig pk h lock digest mid hflags hfork hbit hs hp hh hparse hsize hnp hmid hops
+    hkey hht hse hpe hdig hpk hver
+
+/-- non-vacuity for the inscription theorem: the P2PKH template followed by `OP_0 OP_IF "ord" OP_1 "a/b" OP_0 <2 bytes> OP_ENDIF`
+    parses as `lockOps h ++ envelope mid`, a DER-shaped FORKID signature and a compressed key pass the encoding rules under
+    the FORKID flag, and the model accepts -/
+def toyInscLock : Bytes :=
+  lockBytes (List.replicate 20 7) ++ [0x00, 0x63, 0x03, 0x6f, 0x72, 0x64, 0x51, 0x03, 0x61, 0x2f, 0x62, 0x00, 0x02, 0xaa, 0xbb, 0x68]
+def toyMid : List Script.POp :=
+  [pushOp [0x6f, 0x72, 0x64], ⟨0x51, [], 1⟩, pushOp [0x61, 0x2f, 0x62], ⟨0x00, [], 1⟩, pushOp [0xaa, 0xbb]]
+def toySig : Bytes := [0x30, 0x06, 0x02, 0x01, 0x01, 0x02, 0x01, 0x01, 0x41]
+def toyKey : Bytes := 0x02 :: List.replicate 32 1
+def toyInscCtx : Ctx := ⟨C03.sample, 0, { sats := 5, script := toyInscLock }⟩
+example :
+    (Script.parseScript toyInscLock false).toOption = some (lockOps (List.replicate 20 7) ++ envelope toyMid) ∧
+    checkSignatureEncoding (mkEnv toyH Interp.fForkID (some toyInscCtx)) toySig.dropLast = none ∧
+    checkHashTypeEncoding (mkEnv toyH Interp.fForkID (some toyInscCtx)) 0x41 = none ∧
+    checkPubKeyEncoding (mkEnv toyH Interp.fForkID (some toyInscCtx)) toyKey = none ∧
+    (execute toyH Interp.fForkID (some toyInscCtx) (unlockBytes toySig toyKey) toyInscLock).1 = .accept := by
+  refine ⟨by decide +kernel, by decide +kernel, by decide +kernel, by decide +kernel, by decide +kernel⟩
 
 end Accept
 
